@@ -154,7 +154,7 @@ func (self *Transformer) stmtVariants(node ast.AnalyzedStatement) []ast.Analyzed
 
 		output = append(output, ast.AnalyzedLoopStatement{
 			Body:            self.Block(node.Body),
-			NeverTerminates: false,
+			NeverTerminates: node.NeverTerminates, // (a later pass must still know that this loop diverges)
 			Range:           node.Span(),
 		})
 		// A loop without `break` diverges and code after it may rely on that (a function that only returns
